@@ -531,9 +531,9 @@ func (i indexAccessor) Set(container, val Object) Object {
 
 		if i.kind == ObjectTypeMap && ok {
 			c.Value[pos] = val
-		}
 
-		return UNDEFINED
+			return UNDEFINED
+		}
 	}
 
 	return newError("index assignation for %q type is not supported", container.Type())
@@ -560,9 +560,9 @@ func (i indexAccessor) Remove(container Object) Object {
 
 		if i.kind == ObjectTypeMap && ok {
 			delete(c.Value, pos)
-		}
 
-		return UNDEFINED
+			return UNDEFINED
+		}
 	}
 
 	return newError("index removal for %q type is not supported", container.Type())
